@@ -291,9 +291,15 @@ def retrieve_initial_concentration(
         # unless mixed with general decays
         return
 
-    dataset["initial_concentration"] = (
-        (species_dimension,),
-        dataset_model.initial_concentration.parameters,
+    # The initial concentration is defined on its own compartments, which can be a subset of
+    # (or ordered differently than) the species of all decay megacomplexes of the dataset.
+    initial_concentration = xr.DataArray(
+        np.array(dataset_model.initial_concentration.parameters),
+        coords={species_dimension: dataset_model.initial_concentration.compartments},
+        dims=(species_dimension,),
+    )
+    dataset["initial_concentration"] = initial_concentration.reindex(
+        {species_dimension: dataset.coords[species_dimension].values}
     )
 
 
